@@ -100,7 +100,7 @@ prop("C16",
 
 prop("C15",
      [r_si.rule_accessors, r_si.rule_compare, r_si.rule_get_pure, r_si.rule_setvalue_only, r_si.rule_read_pure,
-      r_si.rule_no_lookup_cache, r_si.rule_transforms_first],
+      r_si.rule_no_lookup_cache, r_si.rule_transforms_first, r_si.rule_setattr_exclusive],
      "Sibling cross-check of the SectionItems accessors: __contains__, __getitem__, __delitem__ and set_item relate "
      "the key to an item only through self.mnemonic_compare(key, item.mnemonic) (census of every comparison that "
      "mentions the key and an element), in a single front-to-back loop over self that leaves at the first match and "
@@ -265,7 +265,7 @@ prop("C09",
      [r_data.rule_tokenizer, r_data.rule_trim, r_sec.rule_title_pred, r_sec.rule_end_test, r_sec.rule_line_normalise,
       r_sec.rule_reseek, r_data.rule_wrap_count, r_sec.rule_convention, r_data.rule_orient, r_sec.rule_content_only_effects,
       r_data.rule_read_subs, r_gr.rule_grammar, r_data.rule_engine_select, r_data.rule_tokens_kept, r_data.rule_split,
-      r_data.rule_subs_source, r_data.rule_subs_agree],
+      r_data.rule_subs_source, r_data.rule_subs_agree, r_sec.rule_whitespace_sets],
      "Presentation-invariance clauses: the sniffer tokenises with the reader's DLM splitter (DATA.TOKENIZER); every "
      "splitter of the factory yields whitespace-free tokens - decided on the regex AST as a character set, or by strip() "
      "of each field - and comma splitting is positional (DATA.TRIM, DATA.SPLIT; COMMA and TAB trimming are recorded known "
@@ -411,7 +411,7 @@ prop("C14",
 
 prop("C10",
      [r_lp.rule_pu_global, r_lp.rule_pu_fresh, r_lp.rule_pu_channel, r_lp.rule_pu_table_alias, r_lp.rule_pu_rewind, r_hdrt.rule_no_state,
-      r_lp.rule_pu_cookie, r_lp.rule_pu_channel_table, r_ex.rule_fresh_document],
+      r_lp.rule_pu_cookie, r_lp.rule_pu_channel_table, r_ex.rule_fresh_document, r_sec.rule_whitespace_sets],
      "Purity by effect summaries: none of the functions reachable from LASFile.__init__/read (resolved call graph incl. "
      "property/__setattr__ hooks; closure size recorded) writes a module-level object, a class attribute or a mutable "
      "default argument - an embedded impure function must be flagged on every run as positive control (PU.GLOBAL); "
